@@ -128,7 +128,7 @@ def run(pid, tier):
                 seq = vel.trace_steps(r["trace"])
                 cid = seq[-1]["case"]
                 case = cases[_case_index(cases, cid) - 1]
-                key = vel.key_of(case["level"], mon, seq)
+                key = vel.key_of(case["level"], mon, seq, case)
                 violations.append({
                     "key": key,
                     "what": "window sum of %s approvals exceeds the limit on the real implementation (case %s): %s" % (
@@ -161,7 +161,7 @@ def run(pid, tier):
             for mon in ("pay", "fee"):
                 if any(s["op"] == "Onchain" for s in seq) == (mon == "fee"):
                     violations.append({
-                        "key": vel.key_of(case["level"], mon, seq),
+                        "key": vel.key_of(case["level"], mon, seq, case),
                         "what": "window sum exceeds the limit on the overflow-checked build (case %s): %s" % (
                             case["id"], " ; ".join("%s(dt=%d,a=%d%s)->%s" % (s["op"], s["dt"], s["a"], ",h=%d" % s["h"] if s.get("h") else "",
                                                    {1: "ok", 0: "refused"}.get(s["ok"], "error")) for s in seq)),
@@ -201,7 +201,7 @@ def run(pid, tier):
             obs = [json.loads(x) for x in open(out)]
             seq = [{**vel._strip(o["req"]), "ok": o["ok"]} for o in obs]
             violations.append({
-                "key": vel.key_of(case["level"], mon, seq),
+                "key": vel.key_of(case["level"], mon, seq, case),
                 "what": "window sum of %s approvals exceeds the limit on a replayed model behaviour (case %s), "
                         "minimised to: %s" % ("fee" if mon == "fee" else "payment", case["id"], " ; ".join(
                             "%s(dt=%d,a=%d%s)->%s" % (q["op"], q["dt"], q["a"], ",h=%d" % q["h"] if q.get("h") else "", {1: "ok", 0: "refused"}.get(q["ok"], "error"))
@@ -239,6 +239,10 @@ def run(pid, tier):
                          "hashes (retry cases); entries of fresh hashes are never looked up again; leg C restores nothing",
                          "small scope: limits 2..7 units and near u64::MAX, 1..5 buckets for the bare control, the real "
                          "Hourly/Daily specs for approver and node, time in half buckets",
+                         "spec change (update_spec / restart with a changed policy: Hourly <-> Daily, limit only): the "
+                         "change itself is the prefix that reaches the root of the `respec` cases (control / node created "
+                         "and used under the old spec, new spec installed, at node level one zero-amount payment persisted); "
+                         "approvals before the change are not counted; same-spec restarts and all requests follow it",
                          "timestamps never decrease (ManualClock); storage backend does not fail",
                          "TLC and the Json/IOUtils community modules"],
                         time.time() - t0, unknown + known)
